@@ -352,6 +352,11 @@ def rule_r3(chk, m):
                 got[k] = unparse(r.value) if isinstance(r, ast.Return) else "?"
     for k, w in want.items():
         chk.ob("C09-R3", f"dates.Period.shift[{k}]", got.get(k) == w, f"case {k!r}: returns {got.get(k)} (documented: {w})", m.loc(f))
+    daily_keyword_periods(chk, "C09-R3", m)
+
+
+def daily_keyword_periods(chk, rid, m):
+    """DailyPeriod.create_soy / eoy / eopy / som by finite evaluation against the checker's calendar (shared with C13-R8)"""
     # daily soy/eoy/eopy
     d = m.methods("DailyPeriod")
     import datetime
@@ -366,7 +371,7 @@ def rule_r3(chk, m):
             for (y, mth, dd_) in ((2023, 1, 1), (2023, 6, 17), (2024, 2, 29), (2024, 12, 31), (2025, 1, 1), (2000, 3, 1), (1900, 12, 31)):
                 serial = datetime.date(y, mth, dd_).toordinal()
                 funcs = dict(fin.CALENDAR_FUNCS)
-                funcs.update({"self.get_year": lambda y=y: y, "self.to_ymd": lambda y=y, mth=mth, dd_=dd_, **kw: (y, mth, dd_), "type": lambda obj: _PeriodVal,
+                funcs.update({"self.get_year": lambda y=y: y, "self.to_ymd": lambda y=y, mth=mth, dd_=dd_, **kw: (y, mth, dd_), "type": lambda obj: _PeriodVal, "klass": _PeriodVal, "cls": _PeriodVal,
                               "self.to_year_segment": lambda y=y, serial=serial: (y, serial - datetime.date(y, 1, 1).toordinal() + 1)})
                 got = fin.run_function(f, {}, funcs=funcs, env={"self": "SELF", "self.serial": serial, "self.frequency.value": 365}, methods=d)
                 want = ("PERIOD", want_fn(y, mth).toordinal())
@@ -374,11 +379,11 @@ def rule_r3(chk, m):
                 if got != want:
                     bad = ((y, mth, dd_), got, want)
                     break
-            chk.ob("C09-R3", f"dates.DailyPeriod.{name}", bad is None,
+            chk.ob(rid, f"dates.DailyPeriod.{name}", bad is None,
                    f"ordinal of date{ymd} on 7 days incl. leap day and year ends" if bad is None else
                    f"{name}() of {bad[0]} gives {bad[1]} (want the period of ordinal {bad[2][1]} = date{ymd})", m.loc(f), sure=True)
         except fin.NotFinite as ex:
-            chk.undecided("C09-R3", f"dates.DailyPeriod.{name}", f"not evaluable: {ex}", m.loc(f))
+            chk.undecided(rid, f"dates.DailyPeriod.{name}", f"not evaluable: {ex}", m.loc(f))
 
 
 def month_tables(m):
@@ -751,6 +756,8 @@ def run(chk):
     chk.guard(rule_r10, chk, m)
     from .. import unused as _unused
     chk.guard(_unused.apply, chk, "C09-R91")
+    from .. import recon as _recon
+    chk.guard(_recon.apply, chk, "C09-R11", {"dates"})
     from .. import args as _args
     chk.guard(_args.apply, chk, "C09-R90", {'dates'}, 1)
     chk.assumptions = [
